@@ -93,6 +93,30 @@ Theorem C17_control_registry_refused_changes_nothing :
 Proof. exact creg_refused_unchanged. Qed.
 Print Assumptions C17_control_registry_refused_changes_nothing.
 
+(* removeConnectionLocked with the client index explicit: after removing connection c, c is NOT in connMap — whatever the
+   client index points to (the same client may be authenticated on a second connection) — and the map is exactly the old
+   one without c, which is what creg_apply uses for eviction, replacement and Remove *)
+Theorem C17_control_registry_remove_removes :
+  forall (r : cregx) (id : N),
+  ~ In id (keys (x_map (remove_conn false r id))) /\ x_map (remove_conn false r id) = del (x_map r) id.
+Proof. exact remove_conn_removes. Qed.
+Print Assumptions C17_control_registry_remove_removes.
+
+(* ... and an index entry that points to ANOTHER connection of the same client is left alone *)
+Theorem C17_control_registry_remove_keeps_foreign_index :
+  forall r id cl other,
+  lookup2 (x_ident r) id = cl -> has (x_index r) cl = true -> lookup2 (x_index r) cl = other -> other <> id ->
+  x_index (remove_conn false r id) = x_index r.
+Proof. exact remove_conn_keeps_foreign_index. Qed.
+Print Assumptions C17_control_registry_remove_keeps_foreign_index.
+
+(* the flattened guard clause (early return before the connMap delete): a superseded connection is never removed, so an
+   eviction at the cap removes nothing and the count grows *)
+Theorem C17_control_registry_remove_guarded_refuted :
+  exists r id, In id (keys (x_map (remove_conn true r id))) /\ length (x_map (remove_conn true r id)) = length (x_map r).
+Proof. exact remove_conn_guarded_refuted. Qed.
+Print Assumptions C17_control_registry_remove_guarded_refuted.
+
 (* Register's ATOMICITY is what C17_control_registry_never_exceeds rests on (one thread step = the whole Register).  The
    variant that releases the registry lock between the eviction and the insert (around the evicted stream's Close()) is
    refuted: limit 2, two callers, schedule evict_A / register_B / insert_A => 3 entries; the atomic Register stays at 2 on
